@@ -16,6 +16,7 @@ import (
 type rowState struct{ a, b, m int64 }
 
 type wspec struct {
+	insert bool // also inserts a row and deletes it again (row markers in the commit)
 	rows  []uint32
 	d     int64
 	set   bool
@@ -425,6 +426,13 @@ func runSnap(cfg rowsCfg, ch func(int, []int) int, grace time.Duration) *scenOut
 						return nil
 					})
 				}
+				if w.insert {
+					// a row inserted and deleted again: the commit carries row markers (fill list update)
+					if off, err := txn.Insert(func(r column.Row) error { r.SetInt64("a", 1); return nil }); err == nil {
+						txn.DeleteAt(off)
+						txn.QueryAt(off, func(r column.Row) error { return nil })
+					}
+				}
 				return nil
 			})
 		})
@@ -534,8 +542,20 @@ func runSnap(cfg rowsCfg, ch func(int, []int) int, grace time.Duration) *scenOut
 			live++
 		}
 	}
-	if d.Count() != live {
-		out.viol("C08", "restored Count %d, want %d", d.Count(), live)
+	inflight := 0
+	for _, w := range cfg.writers {
+		if w.insert {
+			inflight++
+		}
+	}
+	switch n := d.Count(); {
+	case n == live:
+	case n > live && n <= live+inflight:
+		// finding K1: the offset reserved by an insert that was in flight while the block was read
+		// is part of the fill list the snapshot wrote; its commit (insert + delete) came after the copy
+		out.Known["K1"] = append(out.Known["K1"], fmt.Sprintf("restored Count %d with %d live rows: the snapshot holds the reserved offset of an in-flight insert", n, live))
+	default:
+		out.viol("C08", "restored Count %d, want %d", n, live)
 	}
 	out.Features["writers"] = nw
 	return out
